@@ -230,6 +230,7 @@ type wconn struct {
 	c       *websocket.Conn
 	dec     wire.Decoder
 	w       io.WriteCloser
+	prevW   io.WriteCloser // a writer that has ended (closed, or superseded by a later message): stale
 	curMsg  int // message id whose data frames are expected next (-1 none)
 	sent    int // bytes of curMsg's payload already seen on the wire
 	zbuf    []byte
@@ -635,6 +636,9 @@ func (r *writerRun) exec(fault *WFault, outp *[]Ev) (out []Ev) {
 		switch op.Op {
 		case "NW":
 			var w io.WriteCloser
+			if wc.w != nil {
+				wc.prevW = wc.w
+			}
 			w, err = c.NextWriter(op.Type)
 			// frames flushed by the implicit close belong to the previous message
 			tx := r.takeTx()
@@ -694,6 +698,7 @@ func (r *writerRun) exec(fault *WFault, outp *[]Ev) (out []Ev) {
 			ev["m"] = wc.curMsg
 			ev["tx"] = r.takeTx()
 			wc.open = false
+			wc.prevW = wc.w
 			wc.w = nil
 		case "WM":
 			msgID++
@@ -707,6 +712,9 @@ func (r *writerRun) exec(fault *WFault, outp *[]Ev) (out []Ev) {
 			r.preSwitch(wc, msgID)
 			err = c.WriteMessage(op.Type, data)
 			ev["tx"] = r.takeTx()
+			if wc.w != nil {
+				wc.prevW = wc.w
+			}
 			wc.w = nil
 			wc.open = false
 		case "WJ":
@@ -722,6 +730,15 @@ func (r *writerRun) exec(fault *WFault, outp *[]Ev) (out []Ev) {
 			ev["tx"] = r.takeTx()
 			wc.w = nil
 			wc.open = false
+		case "WRO":
+			// Write on a writer that has ended (closed, or superseded by a later message): fails, writes nothing, harms nothing
+			if wc.prevW == nil {
+				continue
+			}
+			var n int
+			n, err = wc.prevW.Write(payFor(p.Seed, 900+len(out), websocket.TextMessage, 3))
+			ev["ret"] = n
+			ev["tx"] = r.takeTx()
 		case "WJB":
 			// WriteJSON of a value encoding/json cannot encode
 			msgID++
